@@ -33,7 +33,7 @@ import (
 
 type mapRange struct {
 	File, Func, Expr, Class string
-	Line                  int
+	Line                    int
 }
 
 func typeCheckDir(dir, pkgPath string) (*token.FileSet, []*ast.File, *types.Info, error) {
